@@ -275,6 +275,35 @@ def _check_signal_lifecycles(check, an: Analysis, wrapper, rule: str = 'P', only
                            'a signal is created but not kept: it can never be revoked')
             continue
         kind, name = holder
+        if kind == 'attr' and fn.cls is not None and \
+                not an.p.is_subclass(fn.cls.qn, _scope.SCOPE) and \
+                an.p.find_method(fn.cls.qn, '__exit__') is not None:
+            # a context manager object keeps its wake-up in an attribute: every way through
+            # its __exit__ withdraws it
+            leave = Callee(an.p.find_method(fn.cls.qn, '__exit__'), fn.cls.qn)
+            target = 'self.%s' % name
+            verdict, n_paths, bad = True, 0, None
+            for which in ('none', 'genexit', 'exc:ext:Exception', 'exc:' + CORE_INTERRUPT):
+                for path in an.paths(leave, which):
+                    n_paths += 1
+                    withdrawn = False
+                    for index, event in enumerate(path.events):
+                        call = event.node
+                        if event.kind in ('call', 'enter') and isinstance(call, ast.Call) \
+                                and isinstance(call.func, ast.Attribute):
+                            if call.func.attr == 'revoke' and rules.value_text(
+                                    path, index, call.func.value) == target:
+                                withdrawn = True
+                            elif call.func.attr == '__unsubscribe__' and target in [
+                                    rules.value_text(path, index, a) for a in call.args]:
+                                withdrawn = True
+                    if not withdrawn:
+                        verdict, bad = False, bad or path
+            check.instance(rule, construct, verdict and n_paths > 0, where,
+                           'the signal kept in `%s` is withdrawn on every way through '
+                           '%s.__exit__ (%d paths)' % (target, fn.cls.name, n_paths),
+                           path=rules.path_lines(bad) if bad else None, analysed=n_paths)
+            continue
         if kind == 'attr':
             ok = fn.name == '__init__' and name in ('_cancel_self', '_interrupt')
             check.instance(rule, construct, ok, where,
